@@ -34,6 +34,7 @@ struct HashSink { uint64_t h = 0xcbf29ce484222325ULL; size_t n = 0; };
 static int hash_cb(const void *buf, size_t size, void *key) {
     HashSink *s = (HashSink *)key;
     s->h = fnv1a(buf, size, s->h); s->n += size;
+    if(getenv("SIM_C19_DUMP")) { fwrite(buf, 1, size, stderr); }
     tsl_sched_point();
     return 0;
 }
@@ -337,7 +338,7 @@ static bool exec_case(uint64_t run_seed, int only_sched, unsigned nsched, bool r
             if(sig_out && sig_out->empty()) { *sig_out = sg; if(detail_out) *detail_out = "died in the solo reference"; }
             return anyv;
         }
-        if(!r.out.g64()) { G.add("c19.skip.unstable_reference"); return false; }
+        if(!r.out.g64()) { G.add("c19.skip.unstable_reference"); if(getenv("SIM_C19_DEBUG")) fprintf(stderr, "%s", describe(c).c_str()); return false; }
         steps = r.out.g64(); get_results(r.out, solo);
     }
     G.add("c19.cases");
